@@ -163,6 +163,79 @@ for _i in range(len(SIZE_CASES)):
         SIZE_FACTS.append(("error", repr(_e)))
 
 
+TLS_CASES = [("file.CompressedFileHandler", "/testfile.txt.gz"), ("ZIP.ZIPHandler", "/testdata2.zip/testfile.txt.gz"), ("scriptexec.ExecHandler", "/pygopherd/cgitest.sh"), ("file.FileHandler", "/testfile.txt")]
+
+
+def _tls_case(i):
+    """The handler writes its document to a TLS connection: `write()` goes through the TLS layer,
+    `fileno()` is the raw socket underneath it.  Returns (bytes that went through write(), bytes
+    that went to the raw descriptor, bytes the same handler writes to a plain connection)."""
+    import importlib
+    import tempfile
+
+    from pygopherd import logger
+    from pygopherd.handlers import base
+
+    logger.log = lambda m: None
+    modname, sel = TLS_CASES[i]
+    out = []
+    for tls in (True, False):
+        hx.reset_lazies()
+        cfg = hx.real_config(full_handlers=True)
+        mod, cls = modname.split(".")
+        H = getattr(importlib.import_module("pygopherd.handlers." + mod), cls)
+        vfs = base.VFS_Real(cfg)
+        proto = hx.ns(server=hx.make_server(cfg), requesthandler=hx.make_rh(tls), config=cfg, check_tls=lambda tls=tls: tls)
+        h = H(sel, "", proto, cfg, vfs.stat(sel) if "|" not in sel and ".zip/" not in sel else None, vfs)
+        if ".zip/" in sel:
+            h = H(sel, "", proto, cfg, None, vfs)
+        assert h.isrequestforme(), (modname, sel)
+        h = h.gethandler()
+        h.getentry()
+        h.prepare()
+        with tempfile.TemporaryFile() as raw:
+            chunks = []
+
+            class W:
+                def write(self, b):
+                    chunks.append(bytes(b))
+                    return len(b)
+
+                def flush(self):
+                    pass
+
+                def fileno(self):
+                    return raw.fileno()
+
+            h.write(W())
+            raw.flush()
+            raw.seek(0)
+            out.append((b"".join(chunks), raw.read()))
+    (tls_written, tls_raw), (plain_written, plain_raw) = out
+    return tls_written, tls_raw, plain_written + plain_raw
+
+
+TLS_FACTS = []
+for _i in range(len(TLS_CASES)):
+    try:
+        TLS_FACTS.append(_tls_case(_i))
+    except Exception as _e:
+        TLS_FACTS.append(("error", repr(_e)))
+
+
+def body_tls_sink(i: int) -> bool:
+    """Over TLS the whole document goes through the connection object: nothing is written to the raw
+    socket descriptor underneath (where it would travel in clear and corrupt the TLS stream), and the
+    bytes are the ones a plaintext connection gets.  (Handlers ran at import, with real decompressors.)"""
+    f = TLS_FACTS[i]
+    hx.reach()
+    hx.require(f[0] != "error", "C04:handler-failed-on-fixture:%s" % TLS_CASES[i][0], lambda: "%r: %s" % (TLS_CASES[i], f[1]))
+    written, raw, plain = f
+    hx.require(raw == b"", "C04:document-bytes-bypass-the-tls-layer:%s" % TLS_CASES[i][0], lambda: "%r: %d bytes written to the raw socket descriptor, %d through the connection" % (TLS_CASES[i], len(raw), len(written)))
+    hx.require(written == plain and len(plain) > 0, "C04:tls-body-differs-from-plaintext-body:%s" % TLS_CASES[i][0], lambda: "%r: %d vs %d bytes" % (TLS_CASES[i], len(written), len(plain)))
+    return True
+
+
 def body_size(i: int) -> bool:
     """For each (handler, fixture): the advertised size is unknown or equals the number of bytes
     written.  (The handlers ran on the real files when this module was loaded.)"""
@@ -407,6 +480,9 @@ def obligations(tier, seed):
            desc="each document handler on its fixture advertises a size that is unknown or equals the bytes it writes (file, HTML, gzip via decompressor, TAL expansion, mbox/Maildir message, script, URL page, ZIP member)",
            bounds="%d (handler, fixture) pairs run on the real testdata; index symbolic" % len(SIZE_CASES),
            functions=["handlers.*.getentry/write", "GopherEntry.populatefromfs"]),
+        Ob(id="C04.3c-tls-sink", body="harness.C04:body_tls_sink", sig="i: int", pre=["0 <= i < %d" % len(TLS_CASES)], timeout=120,
+           desc="documents of handlers that use child processes (decompressors, scripts), of ZIP members and of plain files written to a TLS connection: every byte goes through the connection object, none to the raw socket descriptor under it; the bytes equal the plaintext delivery",
+           bounds="%d (handler, fixture) pairs on the real testdata, TLS and plaintext sink (run at import; index symbolic)" % len(TLS_CASES), functions=["handlers.file.CompressedFileHandler.write", "handlers.scriptexec.ExecHandler.write", "handlers.ZIP.ZIPHandler.write", "VFS_Real.copyto"]),
         Ob(id="C04.4-head", body="harness.C04:body_head", sig="mt: int, hasmtime: bool, isdir: bool, notfound: bool", pre=["0 <= mt <= 4"], timeout=180,
            desc="HTTP HEAD writes exactly GET's status line and headers and no body (documents, menus, not-found), for symbolic MIME type / mtime presence",
            bounds="5 MIME types x mtime x document/menu x found/not-found (symbolic)", functions=["protocols.http.HTTPProtocol.handle/filenotfound"]),
